@@ -285,8 +285,15 @@ fn alt_codec(ctx: &Ctx, s: &Seed, h: u64) -> usize {
     (h / 4) as usize % n
 }
 
-fn is_sweep(label: &str) -> bool {
-    label == "type-sweep" || label == "region-lead-sweep"
+/// Share of each mutation class visited at the quick tier (thorough: all of it).
+/// Length fields, truncation, attribute surgery are always complete; the wide
+/// value sweeps are sampled, differently for every VERIF_SEED.
+fn quick_rate_ppm(label: &str) -> u64 {
+    match label {
+        "type-sweep" | "region-lead-sweep" => 100_000,
+        "len-pair" | "region-boundary" | "region-window" => 500_000,
+        _ => 1_000_000,
+    }
 }
 
 /// The systematic mutation space of every BGP seed.  `sweep_rate` < 1 samples
@@ -303,7 +310,7 @@ fn phase_bgp_systematic(ctx: &mut Ctx, sweep_rate: f64, sample: Option<u64>) {
     prefix.push(total);
     ctx.rep.count_n("space:bgp-systematic-total", total);
     let order_seed = (ctx.rep.params.seed / 1000).wrapping_mul(0x1234_5678_9abc_def1);
-    let rate_ppm = (sweep_rate.clamp(0.0, 1.0) * 1_000_000.0) as u64;
+    let complete = sweep_rate >= 1.0;
     let mut done = 0u64;
     let mut finished = true;
     let n = sample.unwrap_or(total);
@@ -325,8 +332,11 @@ fn phase_bgp_systematic(ctx: &mut Ctx, sweep_rate: f64, sample: Option<u64>) {
             continue;
         }
         let (m, label) = mutate::nth(&ctx.layouts[si], k);
-        if sample.is_none() && is_sweep(label) && rate_ppm < 1_000_000 && mix(g ^ order_seed) % 1_000_000 >= rate_ppm {
-            continue;
+        if sample.is_none() && !complete {
+            let ppm = (quick_rate_ppm(label) as f64 * (sweep_rate * 10.0).min(1.0)) as u64;
+            if mix(g ^ order_seed) % 1_000_000 >= ppm {
+                continue;
+            }
         }
         if !ctx.mine() {
             continue;
@@ -352,7 +362,7 @@ fn phase_bgp_systematic(ctx: &mut Ctx, sweep_rate: f64, sample: Option<u64>) {
     if sample.is_none() {
         // complete for the structured classes; complete for the sweeps too when sweep_rate == 1
         ctx.rep.count(if finished { "systematic:finished" } else { "systematic:cut-by-budget" });
-        if sweep_rate >= 1.0 {
+        if complete {
             ctx.rep.exhaustive = Some(finished);
         }
     }
@@ -1041,7 +1051,7 @@ fn main() {
         }
     }
     if part == "all" || part == "bgp" || part == "bgp-random" {
-        let per_shard = params.n(300_000, 40_000_000) / nshards;
+        let per_shard = params.n(200_000, 40_000_000) / nshards;
         phase_bgp_random(&mut ctx, per_shard.max(1));
     }
     // RTR / BFD systematic spaces are small: visited completely unless scaled down
